@@ -42,7 +42,7 @@ CHECKS = {
              "(tmpfs scratch) without injected I/O errors (the property says "
              "nothing under I/O errors)."),
     "C14": dict(
-        engine="pipeline", cat="fault_enumeration", ref="DESIGN.md §4.1 (C14)",
+        engine="stopmix", cat="fault_enumeration", ref="DESIGN.md §4.1 (C14)",
         technique="deterministic simulation with crash-point style "
                   "enumeration of the stop request over every trigger "
                   "position of a scenario x seeded schedules; prefix oracle",
@@ -53,7 +53,10 @@ CHECKS = {
              "a virtual time, after natural end) under several seeded "
              "schedules each; quick tier samples positions. Oracle: observers "
              "saw exactly split(prefix actually read), saved wav == prefix, "
-             "all threads end within a bounded number of fair steps.",
+             "all threads end within a bounded number of fair steps, the "
+             "request takes effect within 3 further reads. One run in five "
+             "is a whole cmdline.main run with a KeyboardInterrupt injected "
+             "while main sleeps (the Ctrl-C path).",
         note="Stop positions are enumerated per scenario, schedules are "
              "sampled. Interrupt during start_all()/worker construction is "
              "outside the property's quantifier and not generated."),
